@@ -47,5 +47,28 @@ CHECK = MachineCheck(
     thorough=400,
     assumptions=["whether the ETag equals the git blob id is not asserted (the property does not fix its construction)", "hash collisions are out of reach of generation"],
 )
-main = CHECK.main
-replay = CHECK.replay
+
+
+def store_strategy():
+    from ..storemachine import store_program
+
+    return store_program(etag_rate=6, with_cards=True, min_steps=8, max_steps=24)
+
+
+def main(tier, seed):
+    from . import c01_store
+
+    res = CHECK.main(tier, seed)
+    # the same bijection on the store API of all four back ends (tree-git, bare-git, in-memory git, vdir): the ETag a
+    # write returns is the ETag every later listing reports, and it changes exactly when the bytes change
+    c01_store.run(res, tier, seed, examples=25 if tier == "quick" else 300, strategy=store_strategy)
+    return res
+
+
+def replay(obj):
+    if obj.get("engine") == "store":
+        from ..storemachine import run_store_program
+
+        r = run_store_program(obj["program"])
+        return r["ok"], (r["violation"] or {}).get("detail")
+    return CHECK.replay(obj)
